@@ -254,6 +254,32 @@ def operand_kept(ctx, su, operand, digest_before, transform, again, first):
               **su.info(transform=transform, operand_dtype=str(operand.array.dtype)))
 
 
+def after_result_mesh_changed(ctx, su, F, rfft):
+    """History: the caller changes the k-mesh of a result in place (2 pi for angular
+    wavenumbers, a shift of the origin), then transforms again - the same field and a field
+    on an equal but separate mesh.  Every forward transform has the DFT frequencies."""
+    rng = ctx.rng
+    if rng.random() < 0.5:
+        return
+    try:
+        if rng.random() < 0.6:
+            F.mesh.scale(2 * np.pi, inplace=True)
+        else:
+            F.mesh.translate((np.asarray(F.mesh.cell) * rng.integers(1, 4, su.nd)).tolist(), inplace=True)
+    except Exception:  # noqa: BLE001 - C13's subject
+        return
+    ctx.event("history.result_kmesh_changed_in_place")
+    name = "rfftn" if rfft else "fftn"
+    twin = df.Field(df.Mesh(region=su.spec.region(), n=list(su.n)), nvdim=su.nv, value=su.arr,
+                    vdims=su.vdims, vdim_mapping=su.mapping)
+    for who, fld in (("same field", su.field()), ("equal mesh, separate object", twin)):
+        F2 = fld.rfftn() if rfft else fld.fftn()
+        check_kmesh(ctx, su, F2.mesh, rfft,
+                    f"{name} of {who} after the k-mesh of an earlier result was changed in place")
+    km = su.mesh.fftn(rfft=rfft)
+    check_kmesh(ctx, su, km, rfft, f"Mesh.{name} after the k-mesh of an earlier result was changed in place")
+
+
 def complex_transform(ctx):
     su = Setup(ctx, real=ctx.rng.random() < 0.5)
     su.sig(ctx, "fftn")
@@ -297,6 +323,7 @@ def complex_transform(ctx):
     if wrong[-1] != su.n[-1] and wrong[-1] >= 1:
         ctx.expect_raises("C11.mesh_level.wrong_shape_rejected", lambda: km.ifftn(shape=tuple(wrong)),
                           unchanged=[km], what=dict(info, shape=wrong))
+    after_result_mesh_changed(ctx, su, F, False)
 
 
 def real_transform(ctx):
@@ -349,6 +376,7 @@ def real_transform(ctx):
         ok = ok and mesh_same(km.ifftn(rfft=True, shape=tuple(n)), b.mesh)
     ctx.check("C11.mesh_level", ok,
               what="Mesh.fftn(rfft=True) / Mesh.ifftn(rfft=True, shape) vs the field's", **info)
+    after_result_mesh_changed(ctx, su, R, True)
 
 
 def linearity(ctx):
@@ -388,7 +416,54 @@ def linearity(ctx):
               **su.info(transform="ifftn"))
 
 
+def large_transform(ctx):
+    """More than 2**20 values, at least one odd axis: the zero-frequency cell still holds the
+    plain sum, every k-cell the DFT (reference: numpy's FFT, itself compared with the direct
+    sum on the small meshes), and the inverse restores the field."""
+    rng = ctx.rng
+    n = [int(rng.choice([1025, 1027, 1031])), int(rng.choice([1024, 1026, 1023]))]
+    if rng.random() < 0.5:
+        n = n[::-1]
+    cell = 10.0 ** rng.uniform(-9, 0) * rng.uniform(0.5, 2, 2)
+    pmin = rng.uniform(-1, 1, 2) * cell * n
+    mesh = df.Mesh(p1=pmin.tolist(), p2=(pmin + cell * n).tolist(), n=n)
+    arr = rng.normal(size=(*n, 1)) + 0.3
+    f = df.Field(mesh, nvdim=1, value=arr)
+    info = {"ndim": 2, "n": n, "transform": "fftn", "values": int(arr.size), "part": "large"}
+    ctx.sig(("large", tuple(k % 2 for k in n)), nontrivial=True)
+    ctx.event("large_meshes")
+    F = f.fftn()
+    total = float(np.sum(np.abs(arr)))
+    exp = np.fft.fftshift(np.fft.fftn(arr[..., 0]))
+    ok_shape = F.array.shape == (*n, 1)
+    ctx.check("C11.dft", ok_shape and bool(np.all(np.abs(F.array[..., 0] - exp) <= TOL_DFT * total)),
+              max_err_over_sum=float(np.max(np.abs(F.array[..., 0] - exp)) / total) if ok_shape else None,
+              **info)
+    if ok_shape:
+        z = tuple(k // 2 for k in n)
+        ctx.check("C11.zero_frequency",
+                  abs(F.array[z][0] - arr.sum()) <= 1e-12 * total, index=z, got=F.array[z],
+                  expected=arr.sum(), **info)
+        for ax in range(2):
+            got = np.asarray(F.mesh.cells[ax], dtype=float)
+            e = freq_shifted(n[ax], float(mesh.cell[ax]))
+            ctx.check("C11.kmesh.frequencies",
+                      got.shape == e.shape and bool(np.all(np.abs(got - e) <= TOL_FREQ / (n[ax] * mesh.cell[ax]))),
+                      axis=ax, n_axis=n[ax], **info)
+        b = F.ifftn()
+        ctx.check("C11.inverse.values",
+                  b.array.shape == arr.shape and bool(np.all(np.abs(b.array - arr) <= 1e-9 * np.max(np.abs(arr)))),
+                  **dict(info, transform="ifftn(fftn)"))
+    R = f.rfftn()
+    expr = np.fft.fftshift(np.fft.rfftn(arr[..., 0]), axes=[0])
+    ctx.check("C11.rfft.half_of_fft", R.array.shape[:-1] == expr.shape
+              and bool(np.all(np.abs(R.array[..., 0] - expr) <= TOL_DFT * total)),
+              **dict(info, transform="rfftn"))
+
+
 def run_case(ctx, i):
+    if i % 360 == 181:
+        return large_transform(ctx)
     kind = i % 3
     if kind == 0:
         complex_transform(ctx)
